@@ -54,7 +54,7 @@ Clause(cl, r, bs, hx) ==
       \* ... and leaves nothing unread (judged where decoding succeeded at all)
       \* the whole frame write_packet sends: VarInt length of (packet id + body), the packet id as VarInt, the body
       [] cl = "C09_FrameLayout"      -> LET idb == EncVarInt(PacketOf(KeyR(r)).id) IN
-                                        ~r.panic /\ r.framed = HexOf(EncVarInt(Len(idb) + Len(bs)) \o idb \o bs) /\ r.framed_len_reported
+                                        ~r.panic /\ r.framed = HexOf(EncVarInt(Len(idb) + Len(bs)) \o idb \o bs) /\ r.framed_len_reported /\ r.framed_dribbled_same
       [] cl = "C09_ConsumesAll"      -> r.decoded_ok => r.consumed_all
       \* decoding "those bytes" does not depend on the pieces in which the source delivers them (one byte at a time; irregular pieces):
       \* same acceptance, same value, same number of bytes consumed as from one contiguous buffer
